@@ -11,18 +11,20 @@ import (
 )
 
 type job struct {
-	Name   string `json:"name"`
-	Src    string `json:"src"`
-	Cap    int    `json:"cap"`   // polls explored (trace run fires at Cap+1)
-	AllK   bool   `json:"all_k"` // every k in 1..min(total,Cap)
-	NK     int    `json:"nk"`    // else NK indices chosen with Seed
-	Seed   uint64 `json:"seed"`
-	Ks     []int  `json:"ks,omitempty"`    // else exactly these
-	NoRef  bool   `json:"noref,omitempty"` // no context-free reference run (script loops without emitting)
-	Reason string `json:"reason,omitempty"`
-	GoLoop int    `json:"goloop,omitempty"` // KF witness: Go library loop over N catching callbacks
-	Calib  bool   `json:"calib,omitempty"`
-	Class  string `json:"class"`
+	Name      string `json:"name"`
+	Src       string `json:"src"`
+	Cap       int    `json:"cap"`   // polls explored (trace run fires at Cap+1)
+	AllK      bool   `json:"all_k"` // every k in 1..min(total,Cap)
+	NK        int    `json:"nk"`    // else NK indices chosen with Seed
+	Seed      uint64 `json:"seed"`
+	Ks        []int  `json:"ks,omitempty"`    // else exactly these
+	NoRef     bool   `json:"noref,omitempty"` // no context-free reference run (script loops without emitting)
+	Reason    string `json:"reason,omitempty"`
+	GoLoop    int    `json:"goloop,omitempty"` // KF witness: Go library loop over N catching callbacks
+	Calib     bool   `json:"calib,omitempty"`
+	Mode      string `json:"mode,omitempty"`       // "" DoString, "pcall", "resume"
+	RemoveCtx bool   `json:"remove_ctx,omitempty"` // SetContext, RemoveContext, cancel: must run like a context-free state
+	Class     string `json:"class"`
 }
 
 type fireObs struct {
@@ -55,6 +57,7 @@ type jobResult struct {
 	Runs       []fireObs `json:"runs"`
 	MaxDepth   int       `json:"max_depth"`
 	CompileErr string    `json:"compile_err,omitempty"`
+	NoInherit  int       `json:"no_inherit,omitempty"`
 }
 
 type tracePoint struct {
@@ -72,9 +75,13 @@ func reasonOf(j job) string {
 func runJob(j job) jobResult {
 	res := jobResult{Name: j.Name}
 	reason := reasonOf(j)
+	if _, err := newEnv(false, 0, "").L.LoadString(j.Src); err != nil {
+		res.CompileErr = "generated program does not compile: " + err.Error()
+		return res
+	}
 
 	// trace run
-	tr := newEnv(true, j.Cap+1, j.Reason)
+	tr := newEnvX(true, j.Cap+1, j.Reason, j.RemoveCtx)
 	var points []tracePoint
 	tr.c.onPoll = func(th *luaState, i int) {
 		s := tr.snapshot(th)
@@ -83,11 +90,18 @@ func runJob(j job) jobResult {
 		}
 		points = append(points, tracePoint{joinTags(s), len(tr.emits)})
 	}
-	terr, _ := tr.runScript(j.Src)
+	terr, _ := tr.runScript(j.Src, j.Mode)
 	res.TracePolls = tr.c.n
 	res.Terminated = !tr.c.fired
 	res.TraceOutc, _ = outcome(terr, reason)
 	res.Other = tr.c.other
+	res.NoInherit = tr.noInherit
+	if tr.c.n == 0 && !j.RemoveCtx {
+		// not a single Done() call came from lua.mainLoopWithContext although a context is attached
+		res.CompileErr = "no dispatch poll observed: the polling loop (lua.mainLoopWithContext) never called Done() on the attached context"
+		tr.close()
+		return res
+	}
 	traceErrText := ""
 	if terr != nil {
 		_, traceErrText = outcome(terr, reason)
@@ -101,7 +115,7 @@ func runJob(j job) jobResult {
 		if !res.Terminated {
 			rf.maxEmits = len(tr.emits) + 1
 		}
-		rerr, exited := rf.runScript(j.Src)
+		rerr, exited := rf.runScript(j.Src, j.Mode)
 		refEmits = rf.emits
 		res.RefEmits = len(refEmits)
 		if !exited {
@@ -157,7 +171,7 @@ func runJob(j job) jobResult {
 			stack = e.snapshot(th)
 			before = len(e.emits)
 		}
-		err, _ := e.runScript(j.Src)
+		err, _ := e.runScript(j.Src, j.Mode)
 		o := fireObs{K: k, Fired: e.c.fired, Stack: stack, EmitsBefore: before, EmitsAfter: e.emitsAft,
 			PollsAfter: e.c.after, PollsTotal: e.c.n, NoInherit: e.noInherit}
 		o.Outc, o.Err = outcome(err, reason)
